@@ -61,7 +61,7 @@ def install(vm):
         return lk
 
     def new_rlock(vm, s, args, kw):
-        lk = VModel("lock", tag=_tag(), owner=None, count=0, reentrant=True)
+        lk = VModel("lock", tag=_tag(), owner=None, count=0, reentrant=True, saved_count=0)
         lk.birth = s.guard
         return lk
 
